@@ -60,6 +60,9 @@ FailedBag(o, ob, r) ==
                   \* hash and serialisation of a cell equal those of the same value rebuilt from fresh objects
                   \cup Mk("frame", "result_depends_on_history",
                           \A j \in 1..Len(r.post) : r.post[j].k = "cell" => (r.post[j].h = r.post[j].fh /\ r.post[j].s = r.post[j].fs))
+                  \* a parser run twice over the same cell returns the same (parse_as records carry both views)
+                  \cup Mk("frame", "result_depends_on_history",
+                          (Has(r.out, "res") /\ Has(r.out.res, "first")) => r.out.res.first = r.out.res.second)
                   \* what builders and slices report about their room is what their content implies
                   \* (used / available bits, whole bytes and references; remaining bits and references)
                   \cup (LET roomok == \A j \in 1..Len(r.post) :
